@@ -6,6 +6,30 @@ props = [json.loads(l) for l in open(os.path.join(HERE, 'properties.jsonl'))]
 # id -> (level, technique, level text, level note)
 CLAIMED = {}
 exec(open(os.path.join(HERE, 'bin', 'claims.py')).read())
+# what five rounds of independently written breaks added to each workload (DESIGN.md 6.3); the RULE string in evidence/<id>.json is the
+# authoritative description of the families a run explored
+ADDENDUM = {
+ 'C01': ' Added later: second download on the same blob object, peer-claimed lengths (as the client sets them), writers that deliver then hang up, honest retry after failed attempts under wrong claimed lengths, same-peer reopen in one loop iteration, a second different announcement while a copy is in flight.',
+ 'C02': ' Added later: the download side - valid foreign descriptors with hostile names driven through the real ManagedStream (save_file / start / reload histories), saved file and stored file row observed.',
+ 'C03': ' Added later: liquidation and round-amount coin classes, exact-cover sweeps, exhausted change chain, received purchase payments, inputs held by kept builds tracked by the harness while stored transactions are saved again.',
+ 'C04': ' Added later: channels and claims re-read from the wallet database (dbreload), signing-key rotation following the daemon sequence (A6), independently signed v1/v2 claims in all four claim templates (A5).',
+ 'C05': ' Added later: create / edit / sign flows, raw fidelity of every parsed transaction (also BIP144), child transactions spending the outputs of a built parent, output-id touches during incremental builds, a time limit around every library parse.',
+ 'C06': ' Added later: respelled mnemonics and equivalent passphrase forms, several accounts in one ledger, saved gap settings through export / Wallet.merge / start-up save_max_gap / restore.',
+ 'C07': ' Added later: proof-of-work sliver between compact and full-precision target, 2160-header chains with damage deeper than 1000, over-long checkpoint replies, several sessions on one real file, other encodings of the right bits, replayed replaced branch, several checkpointed chunks with holes and cuts across restarts, previous hash one bit off.',
+ 'C08': ' Added later: re-use of verified objects, header replaced while a proof request is outstanding, cached lookups across reorganisations (also with a batch in flight and a tip replaced by a subscription header), planted work-less header, witness-serialised transactions, the database record after a reorganisation.',
+ 'C09': ' Added later: streaming delivery with overlapping notifications and slow server replies, header lag, own payments with reservations released (Y7), connection loss and reconnect.',
+ 'C10': ' Added later: BlobDownloader races and pairs on one blob object, orphan-file blobs, blank-heavy content, request cap vs fragmentation (X7), slow links through the real BlobServer with unequal timeouts (X8), relay by the downloading node (X9), stream downloads over several blobs and peers (X10).',
+ 'C11': ' Added later: operations applied while an add_peer awaits its probe, removals naming a known id at another address, the node\'s own failed requests to stale triples.',
+ 'C12': ' Added later: re-announcement renewal, searcher that is itself an announcer, expired record on the searcher with a fresh announcement elsewhere, records arriving during paging, repeated-page liar, lookups through Node.accumulate_peers, a node joining after the announcements, judged follow-ups after lookups.',
+ 'C13': ' Added later: a later save after an interrupted one, wallet directory on another device than the temp directory with builtin open / sendfile traced, two password changes in one session, sync blobs with foreign scrypt cost parameters through unpack and Wallet.merge.',
+ 'C14': ' Added later: address-history re-saves while builds are held, builds without outputs on pools with barely spendable coins, reconnects, failed / cancelled / timed-out broadcasts through broadcast_or_release, builds funded from a subset of the accounts, debug logging enabled.',
+ 'C15': ' Added later: generated scripts carried in a transaction, serialised and re-read (G5) at script-length and count boundaries 252..254 and 65535/65536.',
+ 'C16': ' Added later: signed payload of legacy claims, zero legacy fees, multi-step re-assembly histories through the wire format (M6).',
+ 'C17': ' Added later: long multi-byte method names, error texts with non-ASCII characters on the wire.',
+ 'C18': ' Added later: blobs opened but never completed, stop()/setup() of the same manager, files above the blob size limit, symlinked blob files, daemon-order start with the real StreamManager on claimed streams with missing sd files.',
+ 'C19': ' Added later: two start-ups with the blob directory away and back, ownership as declared through the API (not the is_mine column), finished rows whose file is gone (interval reading, U7), interrupted passes (U8).',
+ 'C20': ' Added later: compatibility characters that NFKC folds onto digits or the full stop.',
+}
 checks, na = [], []
 for p in props:
     i = p['id']
@@ -18,7 +42,7 @@ for p in props:
             'evidence_file': f'/verif/evidence/{i}.json',
             'replay_cmd_template': f'bin/check {i} --replay {{path}}',
             'engine': 'runtime-monitor',
-            'level_claimed': {'category': c['level'], 'text': c['text'], 'design_ref': f'DESIGN.md §4 {i}'},
+            'level_claimed': {'category': c['level'], 'text': c['text'] + ADDENDUM.get(i, ''), 'design_ref': f'DESIGN.md §4 {i}, §0 (deviations), §6.3 (families added after seeded breaks)'},
             'level_note': c['note'],
             'technique': c['technique'],
         })
